@@ -34,8 +34,13 @@ def run(ctx):
     n = ctx.scale(60, 900) * (2 if ctx.proof_broken else 1)
     if not ctx.quick:
         models += [('exhaustive', m) for m in exhaustive_models()]
-    for _ in range(n):
-        models.append(('random', gen_omen.gen_omen(rng, allow_unstartable=True)))
+    for j in range(n):
+        if j % 6 == 5:
+            # runs of transitions at the top levels 9 / 10: strings whose level is 10 per step, targets far above 13
+            models.append(('high-levels', gen_omen.gen_omen(rng, ngram=rng.choice([2, 3]), nletters=rng.choice([2, 3]), maxlen_extra=rng.choice([1, 2, 3]),
+                                                            levels=rng.choice([[9, 10], [10], [0, 10], [8, 9, 10], [0, 9, 10]]))))
+        else:
+            models.append(('random', gen_omen.gen_omen(rng, allow_unstartable=True)))
     ops, exp, meta, viol, samples = [], [], [], [], []
     dist = {'ngram': {}, 'letters': {}, 'warm_cache': {}, 'raise': 0}
     cases = nontrivial = guesses = 0
@@ -47,6 +52,17 @@ def run(ctx):
         warm = rng.random() < 0.5
         space = sum(len(om['alphabet']) ** ln for ln in range(om['ngram'], len(om['ln']) + 1))
         targets = range(0, 14) if space <= ctx.scale(1500, 20000) else range(0, ctx.scale(7, 9))
+        if src == 'high-levels' and space <= 1500:
+            import itertools
+            lv = set()
+            for ln_ in range(om['ngram'], len(om['ln']) + 1):
+                for t_ in itertools.product(om['alphabet'], repeat=ln_):
+                    lv.update(gen_omen.level_of(om, ''.join(t_)))
+            lv = sorted(lv)
+            if len(lv) > 24:
+                lv = sorted(rng.sample(lv, 24))
+            targets = sorted(set(lv) | {0, 13, (max(lv) + 1) if lv else 1})
+        dist['high_level_models'] = dist.get('high_level_models', 0) + int(src == 'high-levels')
         try:
             r = corr_omen.run_case(d, om, rng, targets, warm)
         except Exception as e:
